@@ -52,6 +52,7 @@ def handle : List String → String
   | ["comps", a] => match hexDecode a with
       | some s => ",".intercalate ((components (s2l s)).map fun c => enc (l2s c))
       | none => "bad-op"
+  | ["untar", strip, entries] => Driver.Bucket.handleUntar strip entries
   | ["hist", layers, init, ops] => Driver.Bucket.handleHist layers init ops
   | _ => "bad-op"
 
